@@ -249,7 +249,12 @@ def run_copies(ctx, out):
                     # the C library reads ENOENT from getdents as the regular end of a directory that was removed while open
                     # (POSIX): that answer is not a failure, and the entries it hides were "not there"
                     fault = (fault[0], fault[1], 5)
-                r = xcp.run_supervised(core.build_sup(), argv, d, d, rules=[("fail", fault[2], 0, fault[0], fault[1], d)], tag="c",
+                fpath = d
+                if rng.random() < 0.5:
+                    # ... most often: something BELOW THE FIRST SOURCE cannot be opened (walked directories, then the files)
+                    fault = ("openat", rng.choice([1, 2, 3, 4, 5, 6, 8]), rng.choice([2, 2, 13]))
+                    fpath = os.path.abspath(os.fsdecode(srcargs[0])).rstrip("/") + "/"
+                r = xcp.run_supervised(core.build_sup(), argv, d, d, rules=[("fail", fault[2], 0, fault[0], fault[1], fpath)], tag="c",
                                        timeout_ms=120000, cpus=ncpus)
                 if not any(e.get("inj") for e in r.trace):
                     fault = None
